@@ -32,7 +32,8 @@ RULE = ('sources: annual | partial (1..120 days, boundary-biased starts incl. 28
         'timestep/leap mismatch); explicit minute / hour lists (sorted, shuffled, repeated, ~10 % not in the '
         'source / off grid / negative); patterns (shorter, equal, longer, empty, all false); ranges and four '
         'statement shapes on random integers with ties at the bounds; daily / monthly / monthly-per-hour '
-        'collections by key lists and by period. A case is non-trivial when the implementation returns a '
+        'collections by key lists and by period (leap-year daily collections with days 60 and 366, requests naming '
+        '366 / 367 / 0, periods ending on or wrapping over 31 Dec, sub-hourly monthly-per-hour keys). A case is non-trivial when the implementation returns a '
         'collection; distinct = distinct request line.')
 TRUSTED_BASE = [
     'the model describes datacollection.py with the five fixes/C02_*.patch applied (year-wrapping continuous '
@@ -474,6 +475,73 @@ def _truncation_sensitive(smoys, rng, k=2):
     return rng.sample(cand, min(k, len(cand)))
 
 
+def _key_period(rng, leap, ts=None):
+    """A filter period for the coarser collections, biased to the year end: December, the last day,
+    periods that wrap over 31 Dec, the whole year, around 28/29 Feb, else random."""
+    n = _ndays(leap)
+    r = rng.random()
+    sh, eh = rng.choice([(0, 23), (0, 23), _rand_window(rng)])
+    ts = ts or rng.choice([1, 1, 2, 4])
+    if r < 0.14:
+        a, b = n - 30, n                                   # December
+    elif r < 0.24:
+        a = b = n                                          # 31 Dec only
+    elif r < 0.42:
+        a, b = n - rng.randrange(0, 40), rng.randrange(1, 40)   # wraps the year end
+    elif r < 0.5:
+        a, b = 1, n                                        # whole year
+    elif r < 0.6:
+        a, b = 59 - rng.randrange(0, 2), 60 + rng.randrange(0, 2)   # around 28/29 Feb
+    elif r < 0.68:
+        a, b = rng.randrange(2, n + 1), n                  # ... to 31 Dec
+    else:
+        return _rand_period(rng, leap, ts=ts)
+    return _date(leap, a) + (sh,) + _date(leap, b) + (eh, ts, leap)
+
+
+def _keyed_case(rng):
+    """One structure-directed case for the daily / monthly / monthly-per-hour collections:
+    leap-year daily collections hold day 60 (29 Feb) and day 366, requests name them, period filters
+    end on / wrap over 31 Dec, monthly-per-hour keys carry sub-hourly minutes."""
+    leap = rng.random() < 0.5
+    n = _ndays(leap)
+    ts = rng.choice([1, 1, 2, 3, 4, 6, 12])
+    hdr = _key_period(rng, leap, ts=ts) if rng.random() < 0.5 else _rand_period(rng, leap, ts=ts)
+    shape = rng.choice(['full', 'ends', 'ends', 'random', 'random'])
+    if shape == 'full':
+        doys = list(range(1, n + 1))
+    elif shape == 'ends':
+        doys = list(OrderedDict.fromkeys([1, 2, 59, 60, 61, n - 1, n] + rng.sample(range(1, n + 1), rng.choice([0, 3, 10]))))
+    else:
+        doys = rng.sample(range(1, n + 1), rng.choice([1, 3, 10, 40]))
+        if rng.random() < 0.5:
+            doys = list(OrderedDict.fromkeys(doys + [n]))
+    if rng.random() < 0.4:
+        rng.shuffle(doys)
+    elif rng.random() < 0.6:
+        doys.sort()
+    dreq = rng.sample(doys, min(len(doys), rng.choice([0, 1, 2, 5])))
+    dreq += rng.sample([n, n, 60, 365, 366, 367, 0, 1, rng.randrange(1, 368)], 3)
+    dfilt = _key_period(rng, leap if rng.random() < 0.92 else not leap)
+    months = rng.sample(range(1, 13), rng.choice([1, 3, 6, 12]))
+    if rng.random() < 0.5:
+        months = list(OrderedDict.fromkeys(months + [12, 1, 2]))
+    if rng.random() < 0.5:
+        months.sort()
+    mreq = rng.sample(range(0, 14), rng.choice([0, 1, 3, 6])) + rng.sample([12, 1, 2], 1)
+    mfilt = _key_period(rng, rng.random() < 0.5)
+    step = 60 // ts
+    base = list(OrderedDict.fromkeys(months[:2] + [12]))
+    allk = [(m, h, mi) for m in base for h in range(24) for mi in range(0, 60, step)]
+    edge = [(12, 23, 60 - step), (12, 0, 0), (base[0], 23, 60 - step), (base[0], 0, step % 60)]
+    keys = list(OrderedDict.fromkeys(rng.sample(allk, min(len(allk), rng.choice([1, 5, 30, 80]))) +
+                                     [k for k in edge if rng.random() < 0.5]))
+    preq = rng.sample(keys, min(len(keys), 3)) + rng.sample(edge + [(13, 0, 0), (base[0], 24, 0), (12, 23, 59)], 2)
+    pfilt = _key_period(rng, leap, ts=ts)
+    return {'leap': leap, 'hdr': hdr, 'doys': doys, 'dreq': dreq, 'dfilt': dfilt, 'months': months,
+            'mreq': mreq, 'mfilt': mfilt, 'keys': keys, 'preq': preq, 'pfilt': pfilt, 'shape': shape}
+
+
 def _disc_sources(ctx, rng):
     """Discontinuous sources with holes / unsorted / repeated steps: [(fields, moys, kind)]."""
     out = []
@@ -693,27 +761,21 @@ def correspondence(ctx):
 
     # -- daily / monthly / monthly-per-hour collections
     dk, da, mk_, ma, pk, pa, kp = [], [], [], [], [], [], []
-    for _ in range(ctx.n(60, 300)):
-        leap = rng.random() < 0.4
-        n = _ndays(leap)
-        hdr = _rand_period(rng, leap)
-        doys = rng.sample(range(1, n + 1), rng.choice([1, 3, 10, 40]))
-        if rng.random() < 0.5:
-            doys.sort()
-        req = rng.sample(doys, min(len(doys), rng.choice([0, 1, 2, 5]))) + [rng.randrange(1, 368) for _ in range(2)]
-        dk.append((hdr, doys, req))
-        f = _rand_period(rng, leap if rng.random() < 0.9 else not leap)
-        da.append((hdr, doys, f))
-        months = rng.sample(range(1, 13), rng.choice([1, 3, 6, 12]))
-        if rng.random() < 0.5:
-            months.sort()
-        mk_.append((hdr, months, rng.sample(range(0, 14), rng.choice([0, 1, 3, 6]))))
-        ma.append((hdr, months, _rand_period(rng, rng.random() < 0.5)))
-        ts = hdr[6]
-        allk = [(m, h, mi) for m in months[:3] for h in range(24) for mi in range(0, 60, 60 // ts)]
-        keys = rng.sample(allk, min(len(allk), rng.choice([1, 5, 30])))
-        pk.append((hdr, keys, rng.sample(keys, min(len(keys), 3)) + [(13, 0, 0), (months[0], 24, 0)]))
-        pa.append((hdr, keys, _rand_period(rng, leap, ts=ts)))
+    for _ in range(ctx.n(70, 300)):
+        kc = _keyed_case(rng)
+        hdr, doys, months, keys = kc['hdr'], kc['doys'], kc['months'], kc['keys']
+        ctx.count('keyed:leap=%s' % kc['leap'])
+        ctx.count('keyed:daily_%s' % kc['shape'])
+        if kc['leap'] and 366 in doys:
+            ctx.count('keyed:daily_has_366')
+            if 366 in kc['dreq']:
+                ctx.count('keyed:daily_req_366')
+        dk.append((hdr, doys, kc['dreq']))
+        da.append((hdr, doys, kc['dfilt']))
+        mk_.append((hdr, months, kc['mreq']))
+        ma.append((hdr, months, kc['mfilt']))
+        pk.append((hdr, keys, kc['preq']))
+        pa.append((hdr, keys, kc['pfilt']))
         kp.append((hdr, doys, [rng.random() < 0.5 for _ in range(rng.choice([0, 1, 3, len(doys)]))]))
     compare_batch(ctx, 'keys', dk, lambda x: 'keys %s %s %s %s' % (_line_ap(x[0]), _vf(x[1]), _ints(x[1]), _ints(x[2])),
                   _guard(lambda x: _show(_daily(x[0], x[1], None, _vf(x[1]) == '1').filter_by_doys(list(x[2])))), canon=_canon,
@@ -1006,6 +1068,23 @@ replay = check_case
 
 # witnesses of the repaired defects and of the open finding (always evaluated)
 CORPUS = [
+    # leap-year daily collections: day 366 by key list and by periods that contain 31 Dec (seeded C02-4)
+    ('keys', {'src': [1, 1, 0, 12, 31, 23, 1, True], 'cls': 'daily', 'by': 'keys', 'keys': list(range(1, 367)),
+              'req': [1, 60, 365, 366]}),
+    ('keys', {'src': [1, 1, 0, 12, 31, 23, 1, True], 'cls': 'daily', 'by': 'period', 'keys': list(range(1, 367)),
+              'filter': [12, 1, 0, 12, 31, 23, 1, True]}),
+    ('keys', {'src': [1, 1, 0, 12, 31, 23, 1, True], 'cls': 'daily', 'by': 'period', 'keys': [366, 1, 60, 2],
+              'filter': [12, 30, 0, 1, 2, 23, 1, True]}),
+    ('keys', {'src': [1, 1, 0, 12, 31, 23, 1, True], 'cls': 'daily', 'by': 'period', 'keys': list(range(1, 367)),
+              'filter': [1, 1, 0, 12, 31, 23, 1, True]}),
+    ('keys', {'src': [1, 1, 0, 12, 31, 23, 1, False], 'cls': 'daily', 'by': 'keys', 'keys': list(range(1, 366)),
+              'req': [365, 1]}),
+    ('keys', {'src': [1, 1, 0, 12, 31, 23, 1, True], 'cls': 'monthly', 'by': 'period', 'keys': list(range(1, 13)),
+              'filter': [12, 30, 0, 1, 2, 23, 1, True]}),
+    ('keys', {'src': [1, 1, 0, 12, 31, 23, 4, True], 'cls': 'mph', 'by': 'keys',
+              'keys': [[12, 23, 45], [12, 23, 30], [2, 0, 15], [1, 0, 0]], 'req': [[12, 23, 45], [2, 0, 15], [12, 23, 59]]}),
+    ('keys', {'src': [1, 1, 0, 12, 31, 23, 4, True], 'cls': 'mph', 'by': 'period',
+              'keys': [[12, 23, 45], [12, 22, 30], [1, 0, 15], [6, 12, 0]], 'filter': [12, 30, 22, 1, 2, 23, 4, True]}),
     ('period', {'src': [12, 1, 0, 1, 31, 23, 1, False], 'path': 'cont', 'fkind': 'straddle',
                 'filter': [12, 15, 0, 1, 15, 23, 1, False]}),
     ('period', {'src': [12, 1, 0, 1, 31, 23, 1, False], 'path': 'cont', 'fkind': 'inside',
@@ -1082,28 +1161,18 @@ def _oracle_cases(ctx):
                              'lo': rng.choice([None, -5, 0]), 'hi': rng.choice([None, 5, 12])}
             yield 'values', {'src': list(c), 'cls': 'cont', 'keys': [], 'vals': vals, 'kind': 'stmt',
                              'stmt': [rng.randrange(4), rng.randrange(-20, 20), rng.randrange(1, 6), rng.randrange(0, 3)]}
-    for _ in range(60 if not big else 250):
-        leap = rng.random() < 0.4
-        n = _ndays(leap)
-        hdr = _rand_period(rng, leap)
-        doys = rng.sample(range(1, n + 1), rng.choice([1, 3, 10, 40]))
+    for _ in range(70 if not big else 250):
+        kc = _keyed_case(rng)
+        leap, hdr, doys, months = kc['leap'], kc['hdr'], kc['doys'], kc['months']
+        keys = [list(k) for k in kc['keys']]
         vals = [rng.randrange(-20, 21) for _ in doys]
-        yield 'keys', {'src': list(hdr), 'cls': 'daily', 'by': 'keys', 'keys': doys,
-                       'req': rng.sample(doys, min(len(doys), 3)) + [rng.randrange(1, 367)]}
-        yield 'keys', {'src': list(hdr), 'cls': 'daily', 'by': 'period', 'keys': doys,
-                       'filter': list(_rand_period(rng, leap))}
-        months = rng.sample(range(1, 13), rng.choice([1, 3, 6, 12]))
-        yield 'keys', {'src': list(hdr), 'cls': 'monthly', 'by': 'keys', 'keys': months,
-                       'req': rng.sample(months, min(len(months), 2)) + [rng.randrange(1, 13)]}
-        yield 'keys', {'src': list(hdr), 'cls': 'monthly', 'by': 'period', 'keys': months,
-                       'filter': list(_rand_period(rng, leap))}
-        ts = hdr[6]
-        allk = [[m, h, mi] for m in months[:3] for h in range(24) for mi in range(0, 60, 60 // ts)]
-        keys = rng.sample(allk, min(len(allk), rng.choice([1, 5, 30])))
-        yield 'keys', {'src': list(hdr), 'cls': 'mph', 'by': 'keys', 'keys': keys,
-                       'req': rng.sample(keys, min(len(keys), 3))}
-        yield 'keys', {'src': list(hdr), 'cls': 'mph', 'by': 'period', 'keys': keys,
-                       'filter': list(_rand_period(rng, leap, ts=ts))}
+        yield 'keys', {'src': list(hdr), 'cls': 'daily', 'by': 'keys', 'keys': doys, 'req': kc['dreq']}
+        if kc['dfilt'][7] == leap:
+            yield 'keys', {'src': list(hdr), 'cls': 'daily', 'by': 'period', 'keys': doys, 'filter': list(kc['dfilt'])}
+        yield 'keys', {'src': list(hdr), 'cls': 'monthly', 'by': 'keys', 'keys': months, 'req': kc['mreq']}
+        yield 'keys', {'src': list(hdr), 'cls': 'monthly', 'by': 'period', 'keys': months, 'filter': list(kc['mfilt'])}
+        yield 'keys', {'src': list(hdr), 'cls': 'mph', 'by': 'keys', 'keys': keys, 'req': [list(k) for k in kc['preq']]}
+        yield 'keys', {'src': list(hdr), 'cls': 'mph', 'by': 'period', 'keys': keys, 'filter': list(kc['pfilt'])}
         yield 'values', {'src': list(hdr), 'cls': 'daily', 'keys': doys, 'vals': vals, 'kind': 'pattern',
                          'pattern': [rng.random() < 0.5 for _ in range(rng.choice([1, 2, 3, len(doys)]))]}
         yield 'values', {'src': list(hdr), 'cls': 'daily', 'keys': doys, 'vals': vals, 'kind': 'range',
